@@ -254,6 +254,8 @@ struct BuiltToken {
   /// the claims a verifier is entitled to see (original claims minus withheld ones)
   view: Value,
   orphans: Vec<Path>,
+  /// the credential as signed has neither a subject id nor any subject claim (nothing was withheld: there is nothing)
+  subject_is_empty: bool,
 }
 
 fn build_token(spec: &TokenSpec, uni: &Universe) -> Result<BuiltToken, String> {
@@ -287,7 +289,24 @@ fn build_token(spec: &TokenSpec, uni: &Universe) -> Result<BuiltToken, String> {
     }
   }
   let (view, orphans) = entitled_view(&claims, &states);
-  Ok(BuiltToken { sd_claims, discs, view, orphans })
+  // (decoy digests inside the subject are indistinguishable from withheld claims: only a subject that is empty in
+  // what was signed as well — no `_sd` member — is empty for the verifier)
+  let subject_is_empty = claims.get("sub").is_none()
+    && claims
+      .pointer("/vc/credentialSubject")
+      .and_then(Value::as_object)
+      .is_some_and(|o| o.is_empty())
+    && sd_claims
+      .pointer("/vc/credentialSubject")
+      .and_then(Value::as_object)
+      .is_some_and(|o| o.is_empty());
+  Ok(BuiltToken {
+    sd_claims,
+    discs,
+    view,
+    orphans,
+    subject_is_empty,
+  })
 }
 
 fn lib_scope(scope: Scope) -> Option<MethodScope> {
@@ -387,7 +406,7 @@ fn visible_issuer(view: &Value) -> Option<&str> {
 }
 
 /// Structure rules of the data model applied to the entitled view (`None`: nothing asserted).
-fn structure_holds(view: &Value) -> Option<bool> {
+fn structure_holds(view: &Value, subject_is_empty: bool) -> Option<bool> {
   let Some(vc) = view.get("vc").and_then(Value::as_object) else {
     return Some(false);
   };
@@ -411,6 +430,10 @@ fn structure_holds(view: &Value) -> Option<bool> {
     return Some(false);
   };
   if view.get("sub").is_none() && subject.is_empty() {
+    // The credential was signed without subject id and without any subject claim: "the subject is non-empty" is false.
+    if subject_is_empty {
+      return Some(false);
+    }
     // A subject all of whose claims are withheld: the pinned decoder leaves its `_sd` member in place, which
     // then counts as a property. Nothing is asserted either way.
     return None;
@@ -652,7 +675,7 @@ fn check_cred(case: &CredCase, obs: &mut Obs) -> CheckResult {
         None => v.set("expiration-date", None),
       }
     }
-    v.set("structure", structure_holds(view));
+    v.set("structure", structure_holds(view, built.subject_is_empty));
     if let Some((holder_is_h, rel)) = case.holder_rel {
       let holder = uni.did(if holder_is_h { DocSel::H } else { DocSel::X });
       let matches = view.get("sub").and_then(Value::as_str) == Some(holder);
